@@ -195,7 +195,10 @@ contract(M + "w_short", params={"self": Marshaller(), "x": Int()}, effect=_appen
 contract(M + "w_long64", params={"self": Marshaller(), "x": Int()}, effect=_append_effect(lambda x: le32(x) + le32(SInt(_ie(x) / (1 << 32)))),
          ensures=lambda self, x, _old_self: [
              ("appends-8-bytes", out_of(self) == _old_self.out + le32(x) + le32(x // (1 << 32))),
-             ("reads-back", Implies(And(x >= -(1 << 63), x < (1 << 63)), le_s(out_of(self), Len(_old_self.out), 8) == x))],
+             # the 64-bit value is stated through its two words (x == low + 2**32 * high, high signed): the same fact as
+             # "the 8 bytes read back to x", in the form the arithmetic solver decides instantly
+             ("reads-back-low-word", H.le(out_of(self), Len(_old_self.out), 4) == x % (1 << 32)),
+             ("reads-back-high-word", Implies(And(x >= -(1 << 63), x < (1 << 63)), le_s(out_of(self), Len(_old_self.out) + 4, 4) == x // (1 << 32)))],
          examples=EX_INT,
          native_check=_native_writer("w_long64", lambda x: struct.pack("<Q", x & 0xFFFFFFFFFFFFFFFF)))
 
@@ -205,7 +208,9 @@ contract(M + "dump_int", params={"self": Marshaller(), "x": Int(lo=-(1 << 63), h
              ("int32", Implies(And(x >= -(1 << 31), x < (1 << 31)),
                                And(out_of(self) == _old_self.out + [ord("i")] + le32(x), le_s(out_of(self), Len(_old_self.out) + 1, 4) == x))),
              ("int64", Implies(Not(And(x >= -(1 << 31), x < (1 << 31))),
-                               And(out_of(self) == _old_self.out + [ord("I")] + le32(x) + le32(x // (1 << 32)), le_s(out_of(self), Len(_old_self.out) + 1, 8) == x)))],
+                               And(out_of(self) == _old_self.out + [ord("I")] + le32(x) + le32(x // (1 << 32)),
+                                   H.le(out_of(self), Len(_old_self.out) + 1, 4) == x % (1 << 32),
+                                   le_s(out_of(self), Len(_old_self.out) + 5, 4) == x // (1 << 32))))],
          examples=EX_INT,
          native_check=_native_writer("dump_int", lambda x: (b"i" + struct.pack("<i", x)) if -2 ** 31 <= x < 2 ** 31 else (b"I" + struct.pack("<q", x)) if -2 ** 63 <= x < 2 ** 63 else None))
 
